@@ -66,3 +66,438 @@ Proof.
     nra.
 Qed.
 End RT.
+
+(* ------------------------------------------------------------------------------------------
+   Bridge from the executable model (PyNum.v / Encode.v on Coq's primitive floats) to the reals.
+   ------------------------------------------------------------------------------------------ *)
+From Coq Require Import Floats Uint63.
+From Flocq Require Import BinarySingleNaN.
+From Flocq Require Import IEEE754.PrimFloat.
+From NV Require Import Base PyNum Encode.
+Open Scope R_scope.
+
+Local Notation fexp := (FLT_exp (-1074) 53).
+Local Notation rnd := (round radix2 fexp ZnearestE).
+Local Instance Hprec' : FLX.Prec_gt_0 prec := eq_refl _.
+Local Instance Hmax' : Prec_lt_emax prec emax := eq_refl _.
+Local Instance P53 : Prec_gt_0 53 := eq_refl _.
+
+(* the float product / quotient, when in range *)
+Lemma mul_B2R x y :
+  Rabs (rnd (B2R (Prim2B x) * B2R (Prim2B y))) < bpow radix2 1024 ->
+  B2R (Prim2B (x * y)) = rnd (B2R (Prim2B x) * B2R (Prim2B y))
+  /\ is_finite (Prim2B (x*y)) = andb (is_finite (Prim2B x)) (is_finite (Prim2B y)).
+Proof.
+  intros H. rewrite mul_equiv.
+  pose proof (Bmult_correct prec emax Hprec' Hmax' mode_NE (Prim2B x) (Prim2B y)) as C.
+  simpl round_mode in C.
+  rewrite Rlt_bool_true in C by exact H.
+  destruct C as [C1 [C2 _]]. split; assumption.
+Qed.
+
+Lemma div_B2R x y :
+  B2R (Prim2B y) <> 0 ->
+  Rabs (rnd (B2R (Prim2B x) / B2R (Prim2B y))) < bpow radix2 1024 ->
+  B2R (Prim2B (x / y)) = rnd (B2R (Prim2B x) / B2R (Prim2B y))
+  /\ is_finite (Prim2B (x/y)) = is_finite (Prim2B x).
+Proof.
+  intros Hy H. rewrite div_equiv.
+  pose proof (Bdiv_correct prec emax Hprec' Hmax' mode_NE (Prim2B x) (Prim2B y) Hy) as C.
+  simpl round_mode in C.
+  rewrite Rlt_bool_true in C by exact H.
+  destruct C as [C1 [C2 _]]. split; assumption.
+Qed.
+
+Lemma int_in_format (n : Z) : (Z.abs n < 2^53)%Z -> generic_format radix2 fexp (IZR n).
+Proof.
+  intros H. apply generic_format_FLT.
+  apply (FLT_spec radix2 (-1074) 53 (IZR n) (Float radix2 n 0)).
+  - unfold F2R; simpl. ring.
+  - simpl. exact H.
+  - simpl. lia.
+Qed.
+
+Lemma of_nat_exact (n : Z) : (0 <= n < 2^53)%Z ->
+  B2R (Prim2B (of_uint63 (Uint63.of_Z n))) = IZR n /\ is_finite (Prim2B (of_uint63 (Uint63.of_Z n))) = true.
+Proof.
+  intros H. rewrite of_int63_equiv.
+  assert (Hz : Uint63.to_Z (Uint63.of_Z n) = n).
+  { rewrite Uint63.of_Z_spec. apply Z.mod_small. change wB with (2^63)%Z. lia. }
+  rewrite Hz.
+  pose proof (binary_normalize_correct prec emax Hprec' Hmax' mode_NE n 0 false) as C.
+  simpl in C.
+  assert (F : F2R (Float radix2 n 0) = IZR n) by (unfold F2R; simpl; ring).
+  rewrite F in C.
+  assert (G : rnd (IZR n) = IZR n).
+  { apply round_generic; [typeclasses eauto | apply int_in_format; lia]. }
+  change (SpecFloat.fexp prec emax) with fexp in C.
+  rewrite G in C.
+  rewrite Rlt_bool_true in C.
+  - destruct C as [C1 [C2 _]]. split; assumption.
+  - rewrite <- abs_IZR. change (bpow radix2 emax) with (IZR (2^1024)). apply IZR_lt.
+    assert (2^53 < 2^1024)%Z by (apply Z.pow_lt_mono_r; lia). lia.
+Qed.
+
+(* PyNum.Z2float is exact below 2^53, for both signs *)
+Lemma Z2float_exact (n : Z) : (Z.abs n < 2^53)%Z ->
+  exists f, Z2float n = Ok f /\ B2R (Prim2B f) = IZR n /\ is_finite (Prim2B f) = true.
+Proof.
+  intros H. unfold Z2float.
+  assert (H64 : (Z.abs n <? 2 ^ 64)%Z = true).
+  { apply Z.ltb_lt. assert (2^53 < 2^64)%Z by (apply Z.pow_lt_mono_r; lia). lia. }
+  rewrite H64. eexists. split; [reflexivity|].
+  assert (L62 : forall k, (0 <= k < 2^53)%Z -> nat_to_float k = of_uint63 (Uint63.of_Z k)).
+  { intros k Hk. unfold nat_to_float.
+    assert ((k <? 2 ^ 62)%Z = true) by (apply Z.ltb_lt; assert (2^53 < 2^62)%Z by (apply Z.pow_lt_mono_r; lia); lia).
+    rewrite H0. reflexivity. }
+  destruct (Z.ltb_spec n 0).
+  - rewrite L62 by lia. destruct (of_nat_exact (- n)) as [E F]; [lia|].
+    rewrite opp_equiv. rewrite B2R_Bopp, is_finite_Bopp. rewrite E, F. split; [|reflexivity].
+    rewrite opp_IZR. ring.
+  - rewrite L62 by lia. apply of_nat_exact. lia.
+Qed.
+
+(* the real value of a primitive float in terms of PyNum.float_me *)
+Lemma float_me_B2R f m e : float_me f = Some (m, e) ->
+  B2R (Prim2B f) = IZR m * bpow radix2 e /\ is_finite (Prim2B f) = true.
+Proof.
+  unfold float_me. intros H.
+  rewrite <- (SF2R_B2SF prec emax (Prim2B f)).
+  assert (Fin : is_finite (Prim2B f) = is_finite_SF (B2SF (Prim2B f))) by (destruct (Prim2B f); reflexivity).
+  rewrite Fin. rewrite B2SF_Prim2B.
+  destruct (Prim2SF f) as [s|s| |s mm ee]; try discriminate.
+  - inversion H; subst. simpl. split; [ring | reflexivity].
+  - inversion H; subst. simpl. split; [|reflexivity].
+    unfold F2R. simpl. destruct s; simpl; reflexivity.
+Qed.
+
+Lemma finite_float_me f : is_finite (Prim2B f) = true -> exists m e, float_me f = Some (m, e).
+Proof.
+  intros H. unfold float_me.
+  assert (Fin : is_finite (Prim2B f) = is_finite_SF (B2SF (Prim2B f))) by (destruct (Prim2B f); reflexivity).
+  rewrite Fin, B2SF_Prim2B in H.
+  destruct (Prim2SF f) as [s|s| |s mm ee]; try discriminate; eexists; eexists; reflexivity.
+Qed.
+
+(* Python's round() as modelled in Encode.py_round (integer arithmetic on mantissa and exponent):
+   if the real value of the float is strictly within 1/2 of an integer n, the result is n *)
+Lemma py_round_close f n :
+  is_finite (Prim2B f) = true -> Rabs (B2R (Prim2B f) - IZR n) < /2 -> py_round f = Ok n.
+Proof.
+  intros Fin Cl. destruct (finite_float_me f Fin) as [m [e Me]].
+  destruct (float_me_B2R f m e Me) as [V _]. rewrite V in Cl. clear V.
+  unfold py_round. rewrite Me.
+  destruct (Z.leb_spec 0 e) as [He|He].
+  - (* an integer *)
+    f_equal. rewrite <- IZR_Zpower in Cl by lia. rewrite <- mult_IZR, <- minus_IZR, <- abs_IZR in Cl.
+    assert (Hlt : IZR (Z.abs (m * 2 ^ e - n)) < 1) by (eapply Rlt_trans; [exact Cl | lra]).
+    apply lt_IZR in Hlt. lia.
+  - (* m / d with d = 2^(-e) >= 2 *)
+    set (d := (2 ^ (- e))%Z).
+    assert (Hd : (2 <= d)%Z).
+    { unfold d. replace (- e)%Z with (1 + (- e - 1))%Z by lia. rewrite Z.pow_add_r by lia.
+      assert (0 < 2 ^ (- e - 1))%Z by (apply Z.pow_pos_nonneg; lia). lia. }
+    assert (Hde : (d = 2 * (d / 2))%Z).
+    { unfold d. replace (- e)%Z with (1 + (- e - 1))%Z by lia. rewrite Z.pow_add_r by lia.
+      change (2 ^ 1)%Z with 2%Z. rewrite Z.mul_comm, Z.div_mul by lia. lia. }
+    assert (B : bpow radix2 e = / IZR d).
+    { assert (E1 : IZR d = bpow radix2 (- e)) by (unfold d; apply (IZR_Zpower radix2); lia).
+      rewrite E1, <- bpow_opp. f_equal. lia. }
+    rewrite B in Cl.
+    assert (Dpos : 0 < IZR d) by (apply IZR_lt; lia).
+    (* 2 |m - n d| < d, in Z *)
+    assert (Hz : (2 * Z.abs (m - n * d) < d)%Z).
+    { apply lt_IZR. rewrite mult_IZR, abs_IZR, minus_IZR, mult_IZR.
+      assert (E : IZR m * / IZR d - IZR n = (IZR m - IZR n * IZR d) / IZR d) by (field; lra).
+      rewrite E in Cl. unfold Rdiv in Cl. rewrite Rabs_mult, (Rabs_pos_eq (/ IZR d)) in Cl
+        by (left; apply Rinv_0_lt_compat; exact Dpos).
+      apply (Rmult_lt_compat_r (IZR d)) in Cl; [|exact Dpos].
+      rewrite Rmult_assoc, Rinv_l, Rmult_1_r in Cl by lra. simpl. lra. }
+    clear Cl B.
+    set (h := (d / 2)%Z) in *.
+    f_equal.
+    pose proof (Z.div_mod (Z.abs m) d ltac:(lia)) as DM.
+    pose proof (Z.mod_pos_bound (Z.abs m) d ltac:(lia)) as MB.
+    set (q := (Z.abs m / d)%Z) in *. set (r := (Z.abs m mod d)%Z) in *.
+    destruct (Z.ltb_spec m 0) as [Mn|Mp].
+    + (* negative: |m| = -m; n <= 0 *)
+      assert (Am : Z.abs m = (- m)%Z) by lia. rewrite Am in DM.
+      destruct (Z.ltb_spec r h) as [R1|R1].
+      * assert (n = - q)%Z by nia. lia.
+      * destruct (Z.ltb_spec h r) as [R2|R2].
+        -- assert (n = - (q + 1))%Z by nia. lia.
+        -- exfalso. assert (r = h) by lia.
+           destruct (Z_le_gt_dec 0 (q + n)) as [K|K].
+           ++ assert (0 <= (q + n) * d)%Z by (apply Z.mul_nonneg_nonneg; lia). lia.
+           ++ assert ((q + n) * d <= - d)%Z by nia. lia.
+    + assert (Am : Z.abs m = m) by lia. rewrite Am in DM.
+      destruct (Z.ltb_spec r h) as [R1|R1].
+      * nia.
+      * destruct (Z.ltb_spec h r) as [R2|R2].
+        -- nia.
+        -- exfalso. assert (r = h) by lia.
+           destruct (Z_le_gt_dec 0 (q - n)) as [K|K].
+           ++ assert (0 <= (q - n) * d)%Z by (apply Z.mul_nonneg_nonneg; lia). lia.
+           ++ assert ((q - n) * d <= - d)%Z by nia. lia.
+Qed.
+
+Lemma eqb_zero_false r : is_finite (Prim2B r) = true -> B2R (Prim2B r) <> 0 -> (r =? 0)%float = false.
+Proof.
+  intros F N. rewrite eqb_equiv.
+  assert (Z0 : Prim2B 0%float = B754_zero false).
+  { change 0%float with zero. rewrite zero_equiv. apply Prim2B_B2Prim. }
+  rewrite Z0. rewrite Beqb_correct by (try exact F; reflexivity).
+  simpl B2R. apply Req_bool_false. exact N.
+Qed.
+
+(* ------------------------------------------------------------------------------------------
+   The round trip: decode_number computes v = fl(fl(n) * r); encode_number computes
+   round(fl(v / r)). For |n| <= 2^48 and a finite resolution r with 2^-300 <= |r| <= 2^300 the
+   result is n — on the executable model functions themselves.
+   ------------------------------------------------------------------------------------------ *)
+Theorem number_roundtrip (n : Z) (r : PrimFloat.float) :
+  (Z.abs n <= 2^48)%Z ->
+  is_finite (Prim2B r) = true ->
+  bpow radix2 (-300) <= Rabs (B2R (Prim2B r)) <= bpow radix2 300 ->
+  exists v, py_mul_int n (PF r) = Ok (PF v) /\ is_finite (Prim2B v) = true /\
+            bind (py_div (PF v) (PF r)) (fun q => match q with PF f => py_round f | PI k => Ok k end) = Ok n.
+Proof.
+  intros Hn Hf [Hlo Hhi].
+  assert (Hn53 : (Z.abs n < 2^53)%Z).
+  { assert (2^48 < 2^53)%Z by (apply Z.pow_lt_mono_r; lia). lia. }
+  destruct (Z2float_exact n Hn53) as [x [Zx [Ex Fx]]].
+  set (R := B2R (Prim2B r)) in *.
+  assert (HR0 : R <> 0).
+  { intro E. rewrite E, Rabs_R0 in Hlo. pose proof (bpow_gt_0 radix2 (-300)). lra. }
+  pose proof (roundtrip_close n R Hn Hlo) as Close.
+  assert (Hn48 : Rabs (IZR n) <= bpow radix2 48).
+  { rewrite <- abs_IZR. change (bpow radix2 48) with (IZR (2^48)). apply IZR_le. lia. }
+  assert (Pbound : Rabs (IZR n * R) <= bpow radix2 348).
+  { rewrite Rabs_mult. change 348%Z with (48 + 300)%Z. rewrite bpow_plus.
+    apply Rmult_le_compat; try apply Rabs_pos; assumption. }
+  assert (Prange : Rabs (rnd (IZR n * R)) < bpow radix2 1024).
+  { apply Rle_lt_trans with (bpow radix2 348).
+    - apply abs_round_le_generic; [typeclasses eauto | typeclasses eauto | | exact Pbound].
+      apply generic_format_bpow. unfold FLT_exp. lia.
+    - apply bpow_lt. lia. }
+  destruct (mul_B2R x r) as [M1 M2].
+  { rewrite Ex. fold R. exact Prange. }
+  rewrite Ex in M1. fold R in M1. rewrite Fx, Hf in M2. simpl in M2.
+  assert (Qrange : Rabs (rnd (rnd (IZR n * R) / R)) < bpow radix2 1024).
+  { apply Rle_lt_trans with (bpow radix2 49).
+    - apply Rabs_lt_inv in Close.
+      assert (bpow radix2 48 + 1 <= bpow radix2 49).
+      { change (bpow radix2 49) with (IZR (2^49)). change (bpow radix2 48) with (IZR (2^48)).
+        rewrite <- plus_IZR. apply IZR_le. lia. }
+      apply Rabs_le. apply Rabs_le_inv in Hn48. lra.
+    - apply bpow_lt. lia. }
+  destruct (div_B2R (x*r)%float r) as [D1 D2].
+  { exact HR0. }
+  { rewrite M1. exact Qrange. }
+  rewrite M1 in D1. rewrite M2 in D2.
+  exists (x * r)%float. split; [|split; [exact M2|]].
+  - unfold py_mul_int. rewrite Zx. reflexivity.
+  - unfold py_div. rewrite (eqb_zero_false r Hf HR0). cbn [bind].
+    apply py_round_close; [exact D2|]. rewrite D1. apply Rlt_trans with (1 := Close). lra.
+Qed.
+
+(* ------------------------------------------------------------------------------------------
+   Field level: the bits of a number field, decoded (sign extension, scaling) and re-encoded
+   (division, round half even, range check, two's complement), are reproduced exactly.
+   ------------------------------------------------------------------------------------------ *)
+From NV Require Import Bits Fields Spec SpecProofs EncodeProofs.
+Open Scope Z_scope.
+
+Lemma wrap_sign_extend signed len bits : 1 <= len -> 0 <= bits < 2 ^ len ->
+  let n := sign_extend signed len bits in
+  (if signed && (n <? 0) then Z.shiftl 1 len + n else n) = bits
+  /\ (if signed then - Z.shiftl 1 (len - 1) <= n <= Z.shiftl 1 (len - 1) - 1 else 0 <= n <= Z.shiftl 1 len - 1).
+Proof.
+  intros Hl Hb. cbn zeta. rewrite sign_extend_spec by lia. unfold spec_signed. rewrite !shiftl1 by lia.
+  assert (P : 2 ^ len = 2 * 2 ^ (len - 1)).
+  { replace len with ((len - 1) + 1) at 1 by lia. rewrite Z.pow_add_r by lia. lia. }
+  destruct signed; simpl.
+  - destruct (Z.leb_spec (2 ^ (len - 1)) bits).
+    + destruct (Z.ltb_spec (bits - 2 ^ len) 0); lia.
+    + destruct (Z.ltb_spec bits 0); lia.
+  - lia.
+Qed.
+
+(* float resolution: any field of up to 48 bits (49 when signed) *)
+Theorem decoded_number_reencodes (bits len : Z) (signed : bool) (r : PrimFloat.float) :
+  1 <= len -> (signed = true -> 4 <= len) -> 0 <= bits < 2 ^ len ->
+  let n := sign_extend signed len bits in
+  Z.abs n <= 2 ^ 48 ->
+  not_available signed len n = false ->
+  is_finite (Prim2B r) = true ->
+  (bpow radix2 (-300) <= Rabs (B2R (Prim2B r)) <= bpow radix2 300)%R ->
+  exists v, py_mul_int n (PF r) = Ok (PF v) /\ encode_num (PF v) len signed (PF r) = Ok bits.
+Proof.
+  intros Hl Hs Hb n Hn NA Fr Rr.
+  destruct (number_roundtrip n r Hn Fr Rr) as [v [Mv [_ Q]]].
+  exists v. split; [exact Mv|].
+  unfold encode_num.
+  destruct (py_div (PF v) (PF r)) as [q|e|]; cbn [bind] in Q |- *; try discriminate.
+  rewrite Q. cbn [bind].
+  destruct (wrap_sign_extend signed len bits Hl Hb) as [W B]. fold n in W, B.
+  assert (P1 : 0 < 2 ^ (len - 1)) by (apply Z.pow_pos_nonneg; lia).
+  unfold not_available in NA. rewrite !shiftl1 in * by lia.
+  assert (In : ((if signed then - 2 ^ (len - 1) else 0) <=? n) && (n <=? (if signed then 2 ^ (len - 1) - 2 else 2 ^ len - 2)) = true).
+  { apply andb_true_iff. split; apply Z.leb_le.
+    - destruct signed; lia.
+    - destruct signed.
+      + specialize (Hs eq_refl). destruct (Z.leb_spec len 3); [lia|]. apply Z.eqb_neq in NA. lia.
+      + destruct (len <=? 3); apply Z.eqb_neq in NA; lia. }
+  rewrite In. rewrite W. reflexivity.
+Qed.
+
+(* integer resolution k (1, 5, 60, ...): n*k / k on doubles is exact while |n*k| < 2^53 *)
+Theorem decoded_int_number_reencodes (bits len k : Z) (signed : bool) :
+  1 <= len -> (signed = true -> 4 <= len) -> 0 <= bits < 2 ^ len ->
+  let n := sign_extend signed len bits in
+  1 <= k -> Z.abs (n * k) < 2 ^ 53 -> k < 2 ^ 53 ->
+  not_available signed len n = false ->
+  py_mul_int n (PI k) = Ok (PI (n * k)) /\ encode_num (PI (n * k)) len signed (PI k) = Ok bits.
+Proof.
+  intros Hl Hs Hb n Hk Hnk Hk53 NA. split; [reflexivity|].
+  unfold encode_num, py_div.
+  destruct (Z.eqb_spec k 0); [lia|].
+  assert (A1 : (Z.abs (n * k) <? 2 ^ 53) = true) by (apply Z.ltb_lt; exact Hnk).
+  assert (A2 : (Z.abs k <? 2 ^ 53) = true) by (apply Z.ltb_lt; lia).
+  rewrite A1, A2.
+  destruct (Z2float_exact (n * k) Hnk) as [fx [Zx [Ex Fx]]].
+  destruct (Z2float_exact k ltac:(lia)) as [fy [Zy [Ey Fy]]].
+  rewrite Zx, Zy. cbn [bind].
+  assert (Hn53 : Z.abs n < 2 ^ 53) by nia.
+  assert (Q : (IZR (n * k) / IZR k = IZR n)%R).
+  { rewrite mult_IZR. field. apply not_0_IZR. lia. }
+  assert (G : rnd (IZR n) = IZR n).
+  { apply round_generic; [typeclasses eauto | apply int_in_format; exact Hn53]. }
+  destruct (div_B2R fx fy) as [D1 D2].
+  { rewrite Ey. apply not_0_IZR. lia. }
+  { rewrite Ex, Ey, Q, G. rewrite <- abs_IZR. change (bpow radix2 1024) with (IZR (2^1024)). apply IZR_lt.
+    assert (2^53 < 2^1024)%Z by (apply Z.pow_lt_mono_r; lia). lia. }
+  rewrite Ex, Ey, Q, G in D1. rewrite Fx in D2.
+  rewrite (py_round_close (fx / fy)%float n D2) by (rewrite D1; rewrite Rminus_diag_eq by reflexivity; rewrite Rabs_R0; lra).
+  cbn [bind].
+  destruct (wrap_sign_extend signed len bits Hl Hb) as [W B]. fold n in W, B.
+  assert (P1 : 0 < 2 ^ (len - 1)) by (apply Z.pow_pos_nonneg; lia).
+  unfold not_available in NA. rewrite !shiftl1 in * by lia.
+  assert (In : ((if signed then - 2 ^ (len - 1) else 0) <=? n) && (n <=? (if signed then 2 ^ (len - 1) - 2 else 2 ^ len - 2)) = true).
+  { apply andb_true_iff. split; apply Z.leb_le.
+    - destruct signed; lia.
+    - destruct signed.
+      + specialize (Hs eq_refl). destruct (Z.leb_spec len 3); [lia|]. apply Z.eqb_neq in NA. lia.
+      + destruct (len <=? 3); apply Z.eqb_neq in NA; lia. }
+  rewrite In. rewrite W. reflexivity.
+Qed.
+
+
+(* the not-available pattern is reproduced *)
+Lemma sentinel_reencodes signed len bits : 1 <= len -> 0 <= bits < 2 ^ len ->
+  not_available signed len (sign_extend signed len bits) = true -> na_pattern len signed = bits.
+Proof.
+  intros Hl Hb NA. destruct (wrap_sign_extend signed len bits Hl Hb) as [W B].
+  rewrite sign_extend_spec in * by lia. unfold spec_signed in *.
+  unfold not_available in NA. unfold na_pattern. rewrite !shiftl1 in * by lia.
+  assert (P : 2 ^ len = 2 * 2 ^ (len - 1)).
+  { replace len with ((len - 1) + 1) at 1 by lia. rewrite Z.pow_add_r by lia. lia. }
+  assert (P1 : 0 < 2 ^ (len - 1)) by (apply Z.pow_pos_nonneg; lia).
+  destruct (Z.leb_spec len 3); destruct signed; simpl in *;
+    try (destruct (Z.leb_spec (2 ^ (len - 1)) bits)); apply Z.eqb_eq in NA; lia.
+Qed.
+
+(* a resolution literal is "ordinary": finite, non-zero, between 2^-300 and 2^300 — a boolean test
+   on mantissa and exponent that the per-run obligation evaluates for every field of the tables *)
+Definition res_ok (r : PrimFloat.float) : bool :=
+  match float_me r with
+  | Some (m, e) => (1 <=? Z.abs m) && (Z.abs m <? 2 ^ 53) && (-300 <=? e) && (e + 53 <=? 300)
+  | None => false
+  end.
+Lemma res_ok_sound r : res_ok r = true ->
+  is_finite (Prim2B r) = true /\
+  (bpow radix2 (-300) <= Rabs (B2R (Prim2B r)) <= bpow radix2 300)%R.
+Proof.
+  unfold res_ok. destruct (float_me r) as [[m e]|] eqn:Me; [|discriminate]. intros H.
+  destruct (float_me_B2R r m e Me) as [V F]. split; [exact F|]. rewrite V. clear V F Me.
+  apply andb_true_iff in H. destruct H as [H H4]. apply andb_true_iff in H. destruct H as [H H3].
+  apply andb_true_iff in H. destruct H as [H1 H2].
+  apply Z.leb_le in H1, H3, H4. apply Z.ltb_lt in H2.
+  rewrite Rabs_mult, <- abs_IZR, (Rabs_pos_eq (bpow radix2 e)) by apply bpow_ge_0.
+  assert (M1 : (1 <= IZR (Z.abs m))%R) by (apply IZR_le; exact H1).
+  assert (M2 : (IZR (Z.abs m) <= bpow radix2 53)%R).
+  { change (bpow radix2 53) with (IZR (2 ^ 53)). apply IZR_le. lia. }
+  pose proof (bpow_gt_0 radix2 e) as Pe.
+  split.
+  - apply Rle_trans with (bpow radix2 e); [apply bpow_le; lia|]. nra.
+  - apply Rle_trans with (bpow radix2 53 * bpow radix2 e)%R; [nra|].
+    rewrite <- bpow_plus. apply bpow_le. lia.
+Qed.
+
+(* ------------------------------------------------------------------------------------------
+   C02 for one numeric field: whatever the decoder produced from the field's bits — absent, or a
+   value that passed the range check — the encoder turns back into exactly those bits.
+   Float resolutions: fields up to 48 bits (49 signed). Integer resolution k: while |n*k| < 2^53.
+   ------------------------------------------------------------------------------------------ *)
+Definition num_field_ok (len : Z) (signed : bool) (res : pynum) : Prop :=
+  match res with
+  | PF r => res_ok r = true /\ len <= (if signed then 49 else 48)
+  | PI k => 1 <= k /\ 2 ^ len * k <= 2 ^ 53
+  end.
+
+Theorem number_field_roundtrip (bits len : Z) (signed : bool) (res mn mx : pynum) (val : value) :
+  1 <= len -> (signed = true -> 4 <= len) -> 0 <= bits < 2 ^ len ->
+  num_field_ok len signed res ->
+  number_of_raw (sign_extend signed len bits) len signed res mn mx = Ok val ->
+  encode_number val len signed res = Ok bits.
+Proof.
+  intros Hl Hs Hb Ok_ D. unfold number_of_raw in D.
+  set (n := sign_extend signed len bits) in *.
+  destruct (not_available signed len n) eqn:NA.
+  - inversion D; subst. simpl. f_equal. apply sentinel_reencodes; assumption.
+  - destruct (wrap_sign_extend signed len bits Hl Hb) as [_ B]. fold n in B. rewrite !shiftl1 in B by lia.
+    assert (P : 2 ^ len = 2 * 2 ^ (len - 1)).
+    { replace len with ((len - 1) + 1) at 1 by lia. rewrite Z.pow_add_r by lia. lia. }
+    assert (P1 : 0 < 2 ^ (len - 1)) by (apply Z.pow_pos_nonneg; lia).
+    destruct res as [k|r]; simpl in Ok_.
+    + destruct Ok_ as [K1 K2].
+      assert (An : Z.abs n < 2 ^ len) by (destruct signed; lia).
+      assert (Hnk : Z.abs (n * k) < 2 ^ 53) by (rewrite Z.abs_mul, (Z.abs_eq k) by lia; nia).
+      assert (Hk53 : k < 2 ^ 53) by nia.
+      destruct (decoded_int_number_reencodes bits len k signed Hl Hs Hb K1 Hnk Hk53 NA) as [M E].
+      fold n in M, E. rewrite M in D. cbn [bind] in D.
+      destruct (range_check (PI (n * k)) mn mx) as [v'|e|] eqn:RC; cbn [bind] in D; try discriminate.
+      assert (v' = PI (n * k)).
+      { unfold range_check in RC. cbn [bind py_sub_tol py_add_tol] in RC.
+        destruct (py_lt _ _); [discriminate|]. destruct (py_gt _ _); [discriminate|]. inversion RC; reflexivity. }
+      subst v'. inversion D; subst. simpl. exact E.
+    + destruct Ok_ as [R1 R2]. destruct (res_ok_sound r R1) as [Fr Rr].
+      assert (An : Z.abs n <= 2 ^ 48).
+      { destruct signed.
+        - assert (2 ^ (len - 1) <= 2 ^ 48) by (apply Z.pow_le_mono_r; lia). lia.
+        - assert (2 ^ len <= 2 ^ 48) by (apply Z.pow_le_mono_r; lia). lia. }
+      destruct (decoded_number_reencodes bits len signed r Hl Hs Hb An NA Fr Rr) as [v [M E]].
+      fold n in M. rewrite M in D. cbn [bind] in D.
+      destruct (range_check (PF v) mn mx) as [v'|e|] eqn:RC; cbn [bind] in D; try discriminate.
+      assert (v' = PF v).
+      { unfold range_check in RC.
+        destruct (py_sub_tol mn _) as [lo|e|]; cbn [bind] in RC; try discriminate.
+        destruct (py_lt _ _); [discriminate|].
+        destruct (py_add_tol mx _) as [hi|e|]; cbn [bind] in RC; try discriminate.
+        destruct (py_gt _ _); [discriminate|]. inversion RC; reflexivity. }
+      subst v'. inversion D; subst. simpl. exact E.
+Qed.
+
+(* boolean form for the table obligation *)
+Definition num_field_okb (len : Z) (signed : bool) (res : NV.Defn.num) : bool :=
+  match res with
+  | NF b => res_ok (float_of_bits b) && (len <=? (if signed then 49 else 48))
+  | NI k => (1 <=? k) && (2 ^ len * k <=? 2 ^ 53)
+  end.
+Lemma num_field_okb_sound len signed res :
+  num_field_okb len signed res = true -> num_field_ok len signed (pynum_of_num res).
+Proof.
+  destruct res as [k|b]; simpl; intros H; apply andb_true_iff in H; destruct H as [H1 H2].
+  - apply Z.leb_le in H1, H2. split; assumption.
+  - apply Z.leb_le in H2. split; assumption.
+Qed.
